@@ -105,3 +105,26 @@ Fixpoint inv (d : det T) : Prop :=
   | DMixed | DItemsOr _ => False
   end.
 End Dom.
+
+(* ---------- meaning of a written mapping (for the merge path) ----------
+   A mapping is the AND of its entries.  An entry key|... : values is read by from_mapping as: the
+   values are AND-linked iff `all` is among the modifier identifiers, else OR-linked; every value is an
+   atom of the key without its `all` identifiers (same field, same value modifiers).  Which atoms hold
+   is an arbitrary assignment h. *)
+Definition s_allid : str := [97; 108; 108].    (* all *)
+Definition segs_all (k : str) : bool := existsb (str_eqb s_allid) (tl (split_pipe k)).
+Definition base_key (k : str) : list str :=
+  match split_pipe k with
+  | f :: ids => f :: filter (fun s => negb (str_eqb s_allid s)) ids
+  | [] => []
+  end.
+Section Meaning.
+Variable h : list str -> pv -> bool.
+Definition den_entry (kv : str * mval) : bool :=
+  if segs_all (fst kv) then forallb (h (base_key (fst kv))) (vals_of (snd kv))
+  else existsb (h (base_key (fst kv))) (vals_of (snd kv)).
+Definition den_map (m : list (str * mval)) : bool := forallb den_entry m.
+End Meaning.
+(* to_plain decides by the substring test "|all" in k; for the keys it writes this is the same as
+   from_mapping's reading (Proofs: key_of_wf) *)
+Definition key_wf (k : str) : Prop := infixb s_all k = segs_all k.
